@@ -65,10 +65,16 @@ def PromoOk : Gen.Fns.Move → Prop
 
 /-! the three layers of `move_score`: table move, killer move, the kind of the move -/
 
+/-- closing tactic of the three layer lemmas: after unfolding, `simp` decides the two leading tests whatever way
+the Rust text spells them (`is_some_and(|x| x == m)`, `== Some(m)`, a `match`), and what is left is a constant
+(a literal or a named constant) to be compared with the model's `0` / `1` -/
+macro "layer_close" : tactic => `(tactic| (all_goals first | rfl | decide | (simp; done)))
+
 theorem move_score_pv (m : Gen.Fns.Move) (killer : Option Gen.Fns.Move) (hist : Array UInt16) :
     Gen.Fns.move_score m (some m) killer hist = 0 := by
   unfold Gen.Fns.move_score
-  simp only [RustSem.isSomeAnd, beq_self_eq_true, ↓reduceIte]
+  simp [RustSem.isSomeAnd]
+  layer_close
 #print axioms move_score_pv
 
 private theorem ne_facts {x m : Gen.Fns.Move} (h : x ≠ m) : (x == m) = false ∧ (m == x) = false :=
@@ -80,34 +86,44 @@ theorem move_score_killer (m : Gen.Fns.Move) (pv : Option Gen.Fns.Move) (hist : 
   cases pv with
   | none =>
     unfold Gen.Fns.move_score
-    simp only [RustSem.isSomeAnd, beq_self_eq_true, ↓reduceIte, Bool.false_eq_true]
+    simp [RustSem.isSomeAnd]
+    layer_close
   | some x =>
-    obtain ⟨hx, hx'⟩ := ne_facts (fun e => h (by rw [e]) : x ≠ m)
+    have hne : x ≠ m := fun e => h (by rw [e])
+    obtain ⟨hx, hx'⟩ := ne_facts hne
     unfold Gen.Fns.move_score
-    simp only [RustSem.isSomeAnd, hx, hx', beq_self_eq_true, ↓reduceIte, Bool.false_eq_true]
+    simp [RustSem.isSomeAnd, hx, hx', hne, Ne.symm hne]
+    layer_close
 #print axioms move_score_killer
 
 theorem move_score_rest (m : Gen.Fns.Move) (pv killer : Option Gen.Fns.Move) (hist : Array UInt16)
     (h1 : pv ≠ some m) (h2 : killer ≠ some m) :
     Gen.Fns.move_score m pv killer hist = Gen.Fns.move_score m none none hist := by
-  cases pv with
-  | none =>
-    cases killer with
-    | none => rfl
-    | some y =>
-      obtain ⟨hy, hy'⟩ := ne_facts (fun e => h2 (by rw [e]) : y ≠ m)
-      unfold Gen.Fns.move_score
-      simp only [RustSem.isSomeAnd, hy, hy', ↓reduceIte, Bool.false_eq_true]
-  | some x =>
-    obtain ⟨hx, hx'⟩ := ne_facts (fun e => h1 (by rw [e]) : x ≠ m)
-    cases killer with
+  have key : ∀ (a b : Option Gen.Fns.Move), a ≠ some m → b ≠ some m →
+      Gen.Fns.move_score m a b hist = Gen.Fns.move_score m none none hist := by
+    intro a b ha hb
+    cases a with
     | none =>
-      unfold Gen.Fns.move_score
-      simp only [RustSem.isSomeAnd, hx, hx', ↓reduceIte, Bool.false_eq_true]
-    | some y =>
-      obtain ⟨hy, hy'⟩ := ne_facts (fun e => h2 (by rw [e]) : y ≠ m)
-      unfold Gen.Fns.move_score
-      simp only [RustSem.isSomeAnd, hx, hx', hy, hy', ↓reduceIte, Bool.false_eq_true]
+      cases b with
+      | none => rfl
+      | some y =>
+        have hne : y ≠ m := fun e => hb (by rw [e])
+        obtain ⟨hy, hy'⟩ := ne_facts hne
+        unfold Gen.Fns.move_score
+        simp [RustSem.isSomeAnd, hy, hy', hne, Ne.symm hne]
+    | some x =>
+      have hnx : x ≠ m := fun e => ha (by rw [e])
+      obtain ⟨hx, hx'⟩ := ne_facts hnx
+      cases b with
+      | none =>
+        unfold Gen.Fns.move_score
+        simp [RustSem.isSomeAnd, hx, hx', hnx, Ne.symm hnx]
+      | some y =>
+        have hne : y ≠ m := fun e => hb (by rw [e])
+        obtain ⟨hy, hy'⟩ := ne_facts hne
+        unfold Gen.Fns.move_score
+        simp [RustSem.isSomeAnd, hx, hx', hy, hy', hnx, Ne.symm hnx, hne, Ne.symm hne]
+  exact key pv killer h1 h2
 #print axioms move_score_rest
 
 theorem cast_u16_u32_toNat (x : UInt16) : (RustSem.cast x : UInt32).toNat = x.toNat := by
